@@ -561,6 +561,13 @@ func (m *Manager) rotateWAL() error {
 		return fmt.Errorf("failed to create new WAL: %w", err)
 	}
 
+	// Continue the sequence numbers of the old WAL: a new WAL starts counting at
+	// 1, and a write stamped with a smaller number than an earlier write of
+	// the same key loses against it in the memtable and after replay
+	if currentWAL != nil {
+		newWAL.UpdateNextSequence(currentWAL.GetNextSequence())
+	}
+
 	// Store the old WAL for proper closure
 	oldWAL := m.wal
 
